@@ -432,6 +432,12 @@ pub fn usable_backends() -> Vec<u8> {
 
 pub const SLOT_HDR: usize = 24;
 
+/// In-flight record for calls that do not go through `Ctx::run` (the history interpreters):
+/// the buffer of the call about to be made, as a fresh single call.
+pub fn note_inflight(entry: Entry, cfg: u8, cap: usize, buf: &[u8]) {
+    write_inflight(&Spec { entry, cfg, cap, place: Placement::End, hdr_at_end: true, prefill: Prefill::Empty, buf });
+}
+
 fn write_inflight(spec: &Spec<'_>) {
     INFLIGHT.with(|c| {
         let (p, cap) = c.get();
